@@ -256,6 +256,26 @@ func init() {
 			// the number of active calls on the calling goroutine's stack
 			return invDone, c.r.tt.Int(64, int64(len(c.t.frames)))
 		},
+		"vCondTicket": func(c *intrCtx) (invResult, Value) {
+			cs := c.r.condOf(c.args[0])
+			cs.next++
+			cs.waiting = append(cs.waiting, cs.next)
+			return invDone, c.r.tt.Int(64, int64(cs.next))
+		},
+		"vCondSleep": func(c *intrCtx) (invResult, Value) {
+			r := c.r
+			cs := r.condOf(c.args[0])
+			ticket := int(cint(c, 1))
+			if !r.syncPoint(c.t, &pendOp{kind: "Cond.Wait(asleep)", enabled: func() bool { return cs.notified[ticket] }}) {
+				return invYield, nil
+			}
+			if !cs.notified[ticket] {
+				r.crash(ODeadlock, "deadlock", "Cond.Wait blocks forever")
+			}
+			delete(cs.notified, ticket)
+			r.acquire(c.t, cs.sync)
+			return invDone, nil
+		},
 		"vStep": func(c *intrCtx) (invResult, Value) {
 			c.r.clock++
 			return invDone, c.r.tt.Int(64, int64(c.r.clock))
@@ -633,6 +653,41 @@ func init() {
 		c.r.syncPoint(c.t, &pendOp{kind: "WaitGroup.Wait(asleep)", enabled: func() bool { return m.wgReleased[c.t] }})
 		return invYield, nil
 	}
+	// ---- sync.Cond ----
+	stubs["(*sync.Cond).Wait"] = func(c *intrCtx) (invResult, Value) {
+		r := c.r
+		p, ok := c.args[0].(Ptr)
+		if !ok || p.s == nil {
+			r.goPanic("runtime error: invalid memory address or nil pointer dereference (sync.Cond)")
+		}
+		fn := r.eng.hpkg.Func("vCondWait")
+		if fn == nil {
+			r.fail("harness runtime lacks vCondWait")
+		}
+		l := r.load(r.fieldByName(p.s, "L"))
+		r.pushFrame(c.t, fn, []Value{Iface{typ: types.NewPointer(p.s.typ), val: p}, l}, nil, nil)
+		return invPushed, nil
+	}
+	condNotify := func(all bool) intrFn {
+		return func(c *intrCtx) (invResult, Value) {
+			r := c.r
+			if !r.syncPoint(c.t, &pendOp{kind: "Cond.Signal/Broadcast"}) {
+				return invYield, nil
+			}
+			cs := r.condOf(c.args[0])
+			r.release(c.t, &cs.sync)
+			for len(cs.waiting) > 0 {
+				cs.notified[cs.waiting[0]] = true
+				cs.waiting = cs.waiting[1:]
+				if !all {
+					break
+				}
+			}
+			return invDone, nil
+		}
+	}
+	stubs["(*sync.Cond).Signal"] = condNotify(false)
+	stubs["(*sync.Cond).Broadcast"] = condNotify(true)
 	// ---- sync.Pool ----
 	stubs["(*sync.Pool).Put"] = func(c *intrCtx) (invResult, Value) {
 		r := c.r
@@ -704,6 +759,81 @@ func init() {
 		was := !te.fired && !te.stopped
 		te.stopped = true
 		return invDone, r.tt.Bool(was)
+	}
+	stubs["(*time.Timer).Reset"] = func(c *intrCtx) (invResult, Value) {
+		r := c.r
+		if !r.syncPoint(c.t, &pendOp{kind: "Timer.Reset"}) {
+			return invYield, nil
+		}
+		te := r.timerBySlot[c.args[0].(Ptr).s]
+		if te == nil {
+			r.fail("Timer.Reset on unknown timer")
+		}
+		was := !te.fired && !te.stopped
+		te.fired, te.stopped = false, false
+		return invDone, r.tt.Bool(was)
+	}
+	stubs["time.AfterFunc"] = func(c *intrCtx) (invResult, Value) {
+		r := c.r
+		fv, ok := c.args[1].(FuncVal)
+		if !ok || fv.IsNil() {
+			r.goPanic("runtime error: invalid memory address or nil pointer dereference (time.AfterFunc(nil))")
+		}
+		tp := c.fn.Signature.Results().At(0).Type().(*types.Pointer).Elem()
+		s := r.newSlot(tp, true)
+		te := &timerEnv{id: len(r.timers), fn: &fv, creator: c.t}
+		r.timers = append(r.timers, te)
+		r.timerBySlot[s] = te
+		r.multi = true
+		return invDone, Ptr{s}
+	}
+	stubs["time.NewTicker"] = func(c *intrCtx) (invResult, Value) {
+		r := c.r
+		if d, ok := c.args[0].(*Term); ok && d.IsConst() && sext(d.c, 64) <= 0 {
+			r.goPanic("non-positive interval for NewTicker")
+		}
+		tp := c.fn.Signature.Results().At(0).Type().(*types.Pointer).Elem()
+		s := r.newSlot(tp, true)
+		cs := r.fieldByName(s, "C")
+		r.nextObj++
+		ch := &ChanObj{typ: under(cs.typ).(*types.Chan), cap: 1, id: r.nextObj}
+		cs.v = ch
+		te := &timerEnv{ch: ch, id: len(r.timers), ticks: 3}
+		r.timers = append(r.timers, te)
+		r.timerBySlot[s] = te
+		r.multi = true
+		return invDone, Ptr{s}
+	}
+	stubs["(*time.Ticker).Stop"] = func(c *intrCtx) (invResult, Value) {
+		r := c.r
+		if !r.syncPoint(c.t, &pendOp{kind: "Ticker.Stop"}) {
+			return invYield, nil
+		}
+		if te := r.timerBySlot[c.args[0].(Ptr).s]; te != nil {
+			te.stopped = true
+		}
+		return invDone, nil
+	}
+	stubs["(*time.Ticker).Reset"] = func(c *intrCtx) (invResult, Value) {
+		r := c.r
+		if !r.syncPoint(c.t, &pendOp{kind: "Ticker.Reset"}) {
+			return invYield, nil
+		}
+		if te := r.timerBySlot[c.args[0].(Ptr).s]; te != nil {
+			te.stopped, te.fired = false, false
+			if te.ticks == 0 {
+				te.ticks = 1
+			}
+		}
+		return invDone, nil
+	}
+	stubs["time.Tick"] = func(c *intrCtx) (invResult, Value) {
+		r := c.r
+		r.nextObj++
+		ch := &ChanObj{typ: under(c.fn.Signature.Results().At(0).Type()).(*types.Chan), cap: 1, id: r.nextObj}
+		r.timers = append(r.timers, &timerEnv{ch: ch, id: len(r.timers), ticks: 3})
+		r.multi = true
+		return invDone, ch
 	}
 	stubs["runtime.Gosched"] = func(c *intrCtx) (invResult, Value) {
 		if !c.r.syncPoint(c.t, &pendOp{kind: "Gosched"}) {
@@ -808,6 +938,38 @@ func (r *Run) mutexOf(c *intrCtx, i int) *mutexState {
 		r.mutexes[p.s] = m
 	}
 	return m
+}
+
+// condState: the notify list of a sync.Cond (tickets in arrival order; Signal wakes the oldest)
+type condState struct {
+	next     int
+	waiting  []int
+	notified map[int]bool
+	sync     *syncMeta
+}
+
+func (r *Run) condOf(v Value) *condState {
+	var s *Slot
+	switch x := v.(type) {
+	case Ptr:
+		s = x.s
+	case Iface:
+		if p, ok := x.val.(Ptr); ok {
+			s = p.s
+		}
+	}
+	if s == nil {
+		r.goPanic("runtime error: invalid memory address or nil pointer dereference (sync.Cond)")
+	}
+	if r.conds == nil {
+		r.conds = map[*Slot]*condState{}
+	}
+	cs := r.conds[s]
+	if cs == nil {
+		cs = &condState{notified: map[int]bool{}}
+		r.conds[s] = cs
+	}
+	return cs
 }
 
 type poolItem struct {
